@@ -570,7 +570,8 @@ class MetadorGroup(MetadorNode):
             "without_attrs": without_attrs,
         }
         self.__wrapped__.copy(src_node.__wrapped__, dst_path, **copy_kwargs)  # RAW
-        dst_node = self[dst_path]  # exists now
+        # exists now (get it without path checks, it can be absolute due to a passed group)
+        dst_node = self._wrap_if_node(self.__wrapped__[dst_path])
         if src_node.name == "/":
             # the container-level bookkeeping is not a part of the copied content
             del dst_node.__wrapped__[M.METADOR_TOC_PATH.lstrip("/")]
